@@ -8,7 +8,7 @@ from rules.astmodel import AstModel
 from sa.cfg import CFG, no_exc
 from sa.guards import FactFlow, aliases_of
 from sa.loader import (
-    AnalysisError, FuncDef, Repo, call_name, enclosing_function, last_attr, parent, qualname_of,
+    AnalysisError, FuncDef, Repo, ancestors, call_name, enclosing_function, last_attr, parent, qualname_of,
     unparse, walk_body,
 )  # fmt: skip
 from sa.report import Check, node_text
@@ -2225,3 +2225,108 @@ def leaf_text_verbatim(check: Check, repo: Repo, rule: str = "LEAF-VERBATIM") ->
             ok = v is not None and unparse(v) == f"{p}.value"
             check.ob(rule, r, f"leave_{kind}: return {unparse(r.value)[:40] if r.value is not None else None}", ok,
                      "the token text itself" if ok else f"the text is rewritten (`{unparse(v)[:50] if v is not None else None}`): the printed numeral / name is not the one that was parsed")
+
+
+APPEND_ALLOWED = {
+    # edit value -> the only conditions (normal form) the recording of that edit may depend on
+    "result": {("result is None", False), ("result is SKIP", False), ("result is False", False), ("result is BREAK", False),
+               ("result is True", False), ("isinstance(node, tuple)", False), ("isinstance(node, Node)", True), ("visit_fn", True)},
+    "node": {("result is None", True), ("is_edited", True)},
+}
+_APPEND_IRRELEVANT = ("isinstance(visitor, Visitor)", "isinstance(root, Node)", "True", "False")
+
+
+def append_conditions(check: Check, repo: Repo, rule: str = "APPEND-CONDITIONS") -> None:
+    check.rule(
+        rule,
+        "visit() records an edit whenever there is one to record - RESULT-FILTER says the conditions at the two "
+        "`edits.append` sites are strong enough, this rule says they are no stronger: the visitor's result is recorded "
+        "under nothing but 'it is none of None / SKIP / False / BREAK / True', and a node rebuilt from edited children is "
+        "passed upwards under nothing but `result is None and is_edited`. Any further condition (the result is not the "
+        "node itself; no edit with this key was recorded yet) silently drops an edit: the children's edits of a node whose "
+        "leave handler returned it, or the edits made inside a node that was replaced on enter",
+    )
+    fn = repo.func("language.visitor", "visit")
+    flow = FactFlow(CFG(fn))
+    sites = [c for c in walk_body(fn) if isinstance(c, ast.Call) and unparse(c.func) == "edits.append" and c.args and isinstance(c.args[0], ast.Tuple) and len(c.args[0].elts) == 2]
+    if len(sites) < 2:
+        check.ob(rule, fn, "visit(): the two edit recording sites", True, f"{len(sites)} direct site(s); the rest is behind a helper", nontrivial=False)
+    for c in sites:
+        what = unparse(c.args[0].elts[1])
+        allowed = APPEND_ALLOWED.get(what)
+        if allowed is None:
+            check.ob(rule, c, f"visit(): {unparse(c)[:50]}", False, f"an edit value `{what}` that is neither the visitor's result nor the rebuilt node")
+            continue
+        facts = {(t, p) for t, p in norm_facts(flow.facts_at(c)) if t not in _APPEND_IRRELEVANT}
+        # conditions that are not conjunctions of atoms (`a or b`) leave no must-fact behind: take the tests of the
+        # enclosing ifs as they stand
+        from sa.guards import split_cond
+
+        child: ast.AST = c
+        for a in ancestors(c):
+            if isinstance(a, (ast.While, ast.For, *FuncDef)):
+                break
+            if isinstance(a, ast.If):
+                in_body = any(child is s_ or any(child is y for y in ast.walk(s_)) for s_ in a.body)
+                for f_ in split_cond(a.test, in_body):
+                    nf = _norm_fact(f_)
+                    if nf and nf[0] not in _APPEND_IRRELEVANT:
+                        facts.add(nf)
+                    elif nf is None:
+                        facts.add((unparse(f_.expr), f_.pol))
+            child = a
+        extra = sorted(facts - allowed)
+        check.ob(rule, c, f"visit(): {unparse(c)[:50]}", not extra,
+                 f"recorded under {sorted(t if p else 'not ' + t for t, p in facts)}" if not extra else
+                 f"additionally requires {[t if p else 'not (' + t + ')' for t, p in extra]}: an edit is dropped whenever that fails")
+
+
+def root_exit_tests(check: Check, repo: Repo, rule: str = "ROOT-EXIT") -> None:
+    check.rule(
+        rule,
+        "visit() leaves its loop early in two situations only: the visitor asked for BREAK, or the *root* itself was "
+        "skipped / removed on enter - and 'root' means that the traversal stack is empty (`not stack`). Every `break` of "
+        "the main loop is under a fact about the BREAK sentinel or under `not stack`. `ancestors` is empty for the direct "
+        "children of a non-document root as well: testing it ends the whole traversal when such a child is skipped, and "
+        "returns REMOVE instead of the edited root when one is removed",
+    )
+    fn = repo.func("language.visitor", "visit")
+    loops = [s for s in fn.body if isinstance(s, ast.While)]
+    if len(loops) != 1:
+        raise AnalysisError("visit(): main loop not found")
+    flow = FactFlow(CFG(fn))
+    breaks = [b for b in ast.walk(loops[0]) if isinstance(b, ast.Break) and not any(isinstance(a, (ast.For, ast.While)) and a is not loops[0] for a in ancestors(b))]
+    if len(breaks) < 3:
+        raise AnalysisError("visit(): early exits not found")
+    for b in breaks:
+        facts = norm_facts(flow.facts_at(b))
+        # why this break is taken: the test of the innermost enclosing `if`
+        inner = next((a for a in ancestors(b) if isinstance(a, ast.If)), None)
+        t = unparse(inner.test) if inner is not None else ""
+        ok = ("stack", False) in facts or "BREAK" in t or t == "result is True"
+        check.ob(rule, b, f"visit(): break under `{t[:50]}`", ok,
+                 "the BREAK sentinel" if "BREAK" in t else ("the traversal stack is empty: the node is the root" if ok else
+                 f"`{t}` is not the test for the root (the stack), it also holds for the root's direct children"))
+
+
+def parallel_drives_given(check: Check, repo: Repo, rule: str = "PARALLEL-MEMBERS") -> None:
+    check.rule(
+        rule,
+        "ParallelVisitor drives exactly the visitors it was given, each once: __init__ stores its `visitors` argument "
+        "itself (or a list()/tuple() copy of it) as self.visitors, and the per-visitor state `self.skipping` has one slot "
+        "per member of that same collection. Any re-packing of the members (flattening nested groups, filtering) changes "
+        "how often a visitor is called per node - a nested ParallelVisitor kept next to its flattened members has them "
+        "called twice, each copy with its own skip / break state",
+    )
+    init = repo.func("language.visitor", "ParallelVisitor.__init__")
+    p = init.args.args[1].arg
+    stores = {unparse(t): s.value for s in walk_body(init) if isinstance(s, (ast.Assign, ast.AnnAssign)) and s.value is not None
+              for t in (s.targets if isinstance(s, ast.Assign) else [s.target]) if unparse(t) in ("self.visitors", "self.skipping")}
+    v = stores.get("self.visitors")
+    ok = v is not None and (unparse(v) == p or (isinstance(v, ast.Call) and call_name(v) in ("list", "tuple") and [unparse(a) for a in v.args] == [p]))
+    check.ob(rule, v if v is not None else init, f"ParallelVisitor.__init__: self.visitors = {unparse(v) if v is not None else '?'}", ok,
+             "the collection that was passed in" if ok else f"not the `{p}` argument itself: the members are re-packed")
+    sk = stores.get("self.skipping")
+    ok2 = sk is not None and any(isinstance(c, ast.Call) and call_name(c) == "len" and c.args and unparse(c.args[0]) in (p, "self.visitors") for c in ast.walk(sk))
+    check.ob(rule, sk if sk is not None else init, f"ParallelVisitor.__init__: self.skipping = {unparse(sk)[:40] if sk is not None else '?'}", ok2,
+             "one slot per given visitor" if ok2 else "not sized by the given visitors")
